@@ -1,7 +1,7 @@
 (* Boundary-grid comparison (vm_compute) of the second group of regenerated kernels with the
    model functions; used only when a lemma of KernelsEquiv2.v no longer checks (see KernelsGrid.v). *)
 From GP Require Import Base While Kernels.
-From GP Require NgModel LsctpModel.
+From GP Require NgModel LsctpModel LradiotapModel.
 Open Scope Z_scope.
 
 Definition len_pts : list Z :=
@@ -23,6 +23,11 @@ Example grid_min :
 Proof. vm_compute. reflexivity. Qed.
 Example grid_align :
   forallb (fun w => forallb (fun o => let a := go_radiotap_align o w in (0 <=? a) && (a <? w) && ((o + a) mod w =? 0))
+                            [0; 1; 2; 3; 4; 5; 6; 7; 8; 9; 15; 16; 17; 31; 33; 255; 256; 257; 65528; 65529; 65533; 65534; 65535])
+          [1; 2; 4; 8] = true.
+Proof. vm_compute. reflexivity. Qed.
+Example grid_align_model :
+  forallb (fun w => forallb (fun o => u16 (o + go_radiotap_align o w) =? LradiotapModel.rt_align o w)
                             [0; 1; 2; 3; 4; 5; 6; 7; 8; 9; 15; 16; 17; 31; 33; 255; 256; 257; 65528; 65529; 65533; 65534; 65535])
           [1; 2; 4; 8] = true.
 Proof. vm_compute. reflexivity. Qed.
